@@ -7,6 +7,7 @@ INVARIANT OutcomeMatches
 INVARIANT AtMostOneOutcomePerRequest
 PROPERTY ReplyMatches
 PROPERTY LateAndForeignIgnored
+PROPERTY DirectionRespected
 PROPERTY NoDoubleIndication
 PROPERTY SameIdDifferentPeersIndependent
 PROPERTY NewRequestGetsFreshKey
